@@ -250,3 +250,10 @@ Theorem tuple_repeated_pointer_refuted : forall f cut x y z,
   snd (walk repaired f Fwd cut (ITuple [(0%nat, x); (1%nat, y); (0%nat, x); (2%nat, z)])) = WRunaway.
 Proof. exact IterProofs.tuple_repeated_pointer_refuted. Qed.
 Print Assumptions tuple_repeated_pointer_refuted.
+
+(* 9. Open finding range-int64-overflow: the box of theorem 5 cannot simply be dropped. *)
+Theorem range_overflow_refuted :
+  snd (walk repaired 5 Fwd 40 (IRange (mkRng 0 9223372036854775807 4611686018427387904))) = WRunaway /\
+  range_len repaired (mkRng (-9223372036854775808) 9223372036854775807 4611686018427387904) = 1.
+Proof. exact IterProofs.range_overflow_refuted. Qed.
+Print Assumptions range_overflow_refuted.
